@@ -63,6 +63,9 @@ pub enum FesOp {
     Cancel { sel: Sel, k: u32 },
     CancelFetched { k: u32 },
     Fetch,
+    /// fault: an add for a time before the queue time. The queue rejects it with a panic; the caller catches the panic and
+    /// carries on - the queue must be exactly as before
+    AddPast { a: u64 },
 }
 
 #[derive(Serialize, Deserialize, Clone, Debug, PartialEq, Eq, Hash)]
@@ -805,6 +808,35 @@ fn run_ops<P: Payload>(prog: &FesProgram, prop: &str, n: usize, t: u64, page: us
                     bail!(Violation::new("C15", "payload-double-drop", format!("payload {i} dropped {} times after cancel", drops_of(i as u64))));
                 }
             }
+            FesOp::AddPast { a } => {
+                if now == 0 {
+                    th.push(50);
+                    continue;
+                }
+                let time = now - 1 - a % now;
+                let id = entries.len() as u64;
+                if P::ID_BITS == 0 {
+                    zst_created += 1;
+                }
+                let r = std::panic::catch_unwind(std::panic::AssertUnwindSafe(|| q.add(Duration::from_nanos(time), P::make(id))));
+                match r {
+                    Err(_) => {
+                        crate::clear_panic();
+                        info.probe("past_add_rejected");
+                        // the rejected payload was dropped by the unwinding; it never was in the queue
+                        entries.push(Entry { time, st: St::Cancelled, zero: false, handle: None });
+                        th.push(51);
+                    }
+                    Ok(_) => {
+                        // accepted: whether that is allowed is not this property's statement (C02 speaks about it at
+                        // runtime level); the history is not judged any further
+                        info.trace_hash = th.0;
+                        drop(entries);
+                        drop(q);
+                        return;
+                    }
+                }
+            }
             FesOp::CancelFetched { k } => {
                 let f: Vec<usize> = entries.iter().enumerate().filter(|(_, e)| e.st == St::Fetched && e.handle.is_some()).map(|(i, _)| i).collect();
                 if f.is_empty() {
@@ -1146,6 +1178,7 @@ pub fn generate(prop: &str, rng: &mut Rng, tier: Tier) -> FesProgram {
     let w_add = 2 + rng.below(8) as u32;
     let w_fetch = 1 + rng.below(8) as u32;
     let w_cancel = if rng.chance(3, 4) { 1 + rng.below(5) as u32 } else { 0 };
+    let with_past = (prop == "C01" || prop == "C15") && rng.chance(1, 4);
     let w_cf = if rng.chance(1, 3) { 1 + rng.below(2) as u32 } else { 0 };
     let pats = [Pat::Now, Pat::Delta, Pat::InHead, Pat::Boundary, Pat::BoundaryM1, Pat::BoundaryP1, Pat::Year, Pat::YearM1, Pat::YearP1, Pat::Tie, Pat::TieAll, Pat::Far];
     let mut pw: Vec<u32> = pats.iter().map(|_| if rng.chance(1, 2) { 1 + rng.below(6) as u32 } else { 0 }).collect();
@@ -1190,6 +1223,7 @@ pub fn generate(prop: &str, rng: &mut Rng, tier: Tier) -> FesProgram {
                 };
                 ops.push(FesOp::Add { pat, a });
             }
+            1 if with_past && rng.chance(1, 12) => ops.push(FesOp::AddPast { a: rng.u64() >> 8 }),
             1 => ops.push(FesOp::Fetch),
             2 => ops.push(FesOp::Cancel { sel: sels[rng.weighted(&sw)].clone(), k: rng.below(1 << 16) as u32 }),
             _ => ops.push(FesOp::CancelFetched { k: rng.below(1 << 16) as u32 }),
